@@ -314,6 +314,9 @@ let handle (x : sx) : sx =
         | L [A "profile_full"] -> OProfileFull
         | L [A "clustering"; p] -> OClustering (path_of_sx p)
         | L [A "iham"; o] -> OIham (nat_of_sx o)
+        | L [A "profile_hog"; o] -> OProfileHog (nat_of_sx o)
+        | L [A "nav"; o] -> ONav (nat_of_sx o)
+        | L [A "at_level"; r; p] -> OAtLevel (ref_of_sx r, path_of_sx p)
         | _ -> failwith "op" in
       let s = srun t fo (List.map op_of ops) (sinit (List.map path_of_sx gs)) in
       L [L (A "genomes" :: List.map sx_path s.ss_genomes); L [A "maps"; sx_int (List.length s.ss_maps)];
